@@ -539,6 +539,12 @@ def _conversion(ctx):
             if isinstance(it, (ast.List, ast.Tuple)):
                 order = [e.value for e in it.elts
                          if isinstance(e, ast.Constant)]
+        if isinstance(sub, ast.For) and isinstance(
+                sub.iter, (ast.List, ast.Tuple)) and isinstance(
+                    sub.target, ast.Name) and order is None:
+            # the comprehension written as a loop appending to the result
+            order = [e.value for e in sub.iter.elts
+                     if isinstance(e, ast.Constant)]
     if parsers is None or order is None:
         # a table of (dimension, parser) rows consumed by one comprehension
         for sub in K.walk_no_nested(res.node):
